@@ -45,6 +45,13 @@ def get_func_in_module(module: str, qualname: str) -> Callable[..., Any]:
         raise InvalidTypeError(
             f"{module}.{qualname} is of type '{type(func)}', not function."
         )
+    if getattr(func, "__qualname__", qualname) != qualname:
+        # The name is bound to another function now, e.g. to the inner function of
+        # a decorator that does not use functools.wraps: its signature is not that
+        # of the function the trace was recorded for.
+        raise InvalidTypeError(
+            f"{module}.{qualname} is now the function '{func.__qualname__}'."
+        )
     return func  # type: ignore[no-any-return]
 
 
